@@ -48,6 +48,8 @@ def _eval(e, st, fields):
         if f in fields:
             return int(st[f])
         if _mentions(inner, fields):
+            if inner.k == "call" and inner.a.name not in ("take", "as_ref", "as_mut", "clone", "as_deref", "is_some", "is_none"):
+                return None          # the result of a call that merely receives the taken value
             raise Opaque(show(e)[:80])
         return None
     if e.k == "call" and e.a.name in ("is_some", "is_none") and e.b:
@@ -84,7 +86,12 @@ def transitions(f, fields):
         stores = []
         for pl, e in p.stores:
             names = [x.get("name") for x in pl["proj"] if "field" in x]
-            if pl["local"] == 1 and len(names) == 1 and names[0] in fields:
+            base = p.env.get(pl["local"]) if pl["local"] != 1 else None
+            while base is not None and base.k in ("ref", "cast"):
+                base = base.a if base.k == "ref" else base.b
+            is_self = pl["local"] == 1 or (base is not None and base.k == "arg" and base.a == 1) or \
+                (base is not None and base.k == "proj" and base.a.k == "arg" and base.a.a == 1 and all("deref" in x for x in base.b))
+            if is_self and len(names) == 1 and names[0] in fields:
                 e = peel(e, calls=None)
                 if e.k == "const" and e.a in (0, 1):
                     stores.append((names[0], [bool(e.a)]))
@@ -157,7 +164,8 @@ def explore(init, trans, fields, ghost_of, check):
 def iterator_protocol(led, rid, ctx):
     lib = ctx.lib
     new = lib.method("SolutionIterator", "new")
-    f = lib.method("SolutionIterator", "next_solution")
+    from .C03 import next_solution as _ns
+    f = _ns(lib)
     init = None
     for p in SymExec(new).run():
         r = peel(p.ret, calls=None) if p.ret is not None else None
